@@ -43,6 +43,8 @@ def op_coq(op):
         return 'OpCaSubscribe %d %s' % (op[1], zz(op[2]))
     if k == 'ca_subreq':
         return 'OpCaSubReq %d %s' % (op[1], zz(op[2]))
+    if k == 'ca_unsubreq':
+        return 'OpCaUnsubReq %d %s' % (op[1], zz(op[2]))
     if k == 'ca_send':
         _, now, i, dp, pf, ps, prio, data = op
         return 'OpCaSend %d %s %s %s %s %s (PLit %s)' % (i, zz(now), zz(dp), zz(pf), zz(ps), zz(prio), zl(data))
@@ -65,7 +67,7 @@ def op_coq22(op):
         _, now, dp, pf, ps, prio, sa, data, tl, ff = op
         return 'O2Send %s %s %s %s %s %s (PLit %s) %s %s' % (zz(now), zz(dp), zz(pf), zz(ps), zz(prio), zz(sa), zl(data), zz(tl), zz(ff))
     base = op_coq(op)
-    if not base.startswith('Op') or base.split()[0] not in ('OpSubscribe', 'OpUnsubscribe', 'OpAddCa', 'OpCaSubscribe', 'OpCaSubReq', 'OpAddTimer',
+    if not base.startswith('Op') or base.split()[0] not in ('OpSubscribe', 'OpUnsubscribe', 'OpAddCa', 'OpCaSubscribe', 'OpCaSubReq', 'OpCaUnsubReq', 'OpAddTimer',
                                                            'OpRemoveTimer', 'OpNotify', 'OpListener', 'OpJob',
                                                            'OpCaStart', 'OpCaStop', 'OpCaSendMsg'):
         raise ValueError('op not expressible in the FD model: %r' % (op,))
